@@ -90,6 +90,7 @@ inductive Op
   | update (kvs : List (Key × Obj))    -- `objects.update({..})`
   | popIdx (i : Int)                   -- `objects.pop(i)`; `pop()` is `popIdx (-1)`
   | popKey (k : Key)                   -- `objects.pop(k)`
+  | popKeyD (k : Key) (d : Obj)        -- `objects.pop(k, d)`: like `dict.pop`, the default for a missing key
   | remove (o : Obj)
   | clear
   | replaceList (os : List Obj)        -- `p.objects = [..]`
@@ -116,9 +117,11 @@ def nameOf (str : Obj → Key) (names : Dict) (o : Obj) : Key :=
 def namedObjs (str : Obj → Key) (objs : List Obj) (names : Dict) : Dict :=
   objs.foldl (fun d o => Dict.set d (nameOf str names o) o) []
 
-/-- Python's `str` on the objects of the driver's universe (an integer, with 0 standing for `None`).
+/-- Python's `str` on the objects of the driver's universe: model object 0 stands for `None`, object
+`k ≠ 0` for the Python integer `1000 * k` (the harness hands every such object over as a fresh `int`
+outside CPython's small-integer cache, so that equal objects are not identical).
 The theorems only assume that `str` is injective on objects; this instance is what the driver uses. -/
-def pyStr (o : Obj) : Key := if o = 0 then "None" else Int.repr o
+def pyStr (o : Obj) : Key := if o = 0 then "None" else Int.repr (o * 1000)
 
 def payloadOld (s : St) : Payload :=       -- `dict(names) or list(_objects)`
   if s.names ≠ [] then .dct s.names else .lst s.objs
@@ -187,6 +190,16 @@ def step (str : Obj → Key) (s : St) : Op → St × Out
     if s.objs ≠ [] ∧ s.names = [] then (s, { err := some .valueError }) else
     match Dict.get? s.names k with
     | none => (s, { err := some .keyError })
+    | some o =>
+      let s1 := { s with names := Dict.erase s.names k }
+      match removeFirst s.objs o with
+      | some l => let s' := { s1 with objs := l }
+                  (s', { ret := some o, notifs := [(payloadOld s, payloadNew s')] })
+      | none => (s1, { err := some .valueError })
+  | .popKeyD k d =>
+    if s.objs ≠ [] ∧ s.names = [] then (s, { err := some .valueError }) else
+    match Dict.get? s.names k with
+    | none => (s, { ret := some d })          -- nothing removed, nobody notified
     | some o =>
       let s1 := { s with names := Dict.erase s.names k }
       match removeFirst s.objs o with
